@@ -163,6 +163,14 @@ theorem refused_edit_frame {m : Mol} (op : Op) (hop : ∀ r1 r2 l, op ≠ .remov
     · simp only [step, if_neg hb]
   | removeSubstituent r1 r2 l => exact absurd rfl (hop r1 r2 l)
   | addHydrogens hs => simp only [step] at he; cases he
+  | appendBondObj b x y =>
+    by_cases hb : b ∈ m.bonds.map (·.id)
+    · simp only [step, if_pos hb]
+    · simp only [step, if_neg hb] at he; cases he
+  | appendBondObjs l =>
+    by_cases hc : (∀ p ∈ l, p.1 ∉ m.bonds.map (·.id)) ∧ (l.map (·.1)).Nodup
+    · simp only [step, if_pos hc] at he; cases he
+    · simp only [step, if_neg hc]
   | mkView refs => rfl
   | viewRead as => rfl
   | viewWrite as ps =>
@@ -175,6 +183,66 @@ theorem refused_edit_frame {m : Mol} (op : Op) (hop : ∀ r1 r2 l, op ≠ .remov
       by_cases hl : ps.length = as.length
       · rw [if_pos hl] at he; cases he
       · rw [if_neg hl]
+
+/-! ## stale handles: atoms and bonds deleted earlier in the history and passed to an edit again
+
+Nothing in `step` asks that an atom or bond identity handed to an operation is new: `addAtom`, `appendBond`, `appendBonds`
+take any atom identity (a deleted one is simply not a member: `add_atom` re-adds it with the coordinate and charge given
+now, a bond end is re-adopted with a NaN row and a zero charge), `connect` / `delAtom` / `removeSubstituent` refuse it,
+`delBond` refuses a deleted bond, `appendBondObj(s)` re-append a deleted bond OBJECT (and re-adopt its deleted ends) and
+refuse one that is in the molecule.  `inv_step` / `inv_history` therefore cover every history with stale handles; the
+statements below spell out the cases. -/
+
+/-- A bond made to an atom that was deleted earlier (or never was in the molecule) brings the atom back into the molecule:
+afterwards both ends of the new bond are atoms of the molecule, the re-adopted atom with the NaN row and the zero charge. -/
+theorem stale_end_readopted {m : Mol} (h : MInv m) (x y : AtomSpec) (hy : y.id ∉ m.ids) (hx : x.id ∈ m.ids) :
+    let m' := (step m (.appendBond x y)).1
+    MInv m' ∧ y.id ∈ m'.ids ∧ (y.id, nanRow) ∈ m'.rows ∧ (y.id, some zeroCharge) ∈ m'.charges := by
+  have hinv := inv_step h (.appendBond x y)
+  refine ⟨hinv, ?_⟩
+  simp only [step, pushBond_eq]
+  have e1 : adopt { m with next := m.next + 1 } x = { m with next := m.next + 1 } := by
+    unfold adopt; rw [if_pos]; exact hx
+  have e2 : adopt { m with next := m.next + 1 } y = pushAtom { m with next := m.next + 1 } y nanRow none := by
+    unfold adopt; rw [if_neg]; exact hy
+  rw [e1, e2]
+  refine ⟨?_, ?_, ?_⟩
+  · show y.id ∈ (pushAtom { m with next := m.next + 1 } y nanRow none).ids
+    rw [ids_pushAtom]; simp
+  · simp [pushAtom]
+  · simp [pushAtom, zeroCharge]
+
+/-- Re-appending a deleted bond object puts exactly that object back (and re-adopts deleted ends); a bond object that is
+in the molecule is refused and nothing changes. -/
+theorem stale_bond_reappended {m : Mol} (h : MInv m) (b : Nat) (x y : AtomSpec) :
+    (b ∉ m.bonds.map (·.id) →
+      let m' := (step m (.appendBondObj b x y)).1
+      MInv m' ∧ m'.bonds.map (·.id) = m.bonds.map (·.id) ++ [b] ∧ x.id ∈ m'.ids ∧ y.id ∈ m'.ids) ∧
+    (b ∈ m.bonds.map (·.id) → step m (.appendBondObj b x y) = (m, .err)) := by
+  refine ⟨fun hb => ?_, fun hb => by simp only [step, if_pos hb]⟩
+  have hinv := inv_step h (.appendBondObj b x y)
+  refine ⟨hinv, ?_⟩
+  simp only [step, if_neg hb] at hinv ⊢
+  refine ⟨bondIds_pushBond _ _ _ _, ?_⟩
+  have := hinv.bondEnds { id := b, a1 := x.id, a2 := y.id, parentOk := true } (by
+    rw [pushBond_eq]; simp)
+  exact this
+
+/-- A deleted atom addressed as an object is refused by `del_atom`, `connect` and as either argument of
+`remove_substituent`; a deleted bond is refused by `del_bond`: nothing changes (but the serial counter). -/
+theorem stale_refused {m : Mol} (a : AtomId) (ha : a ∉ m.ids) (b : Nat) (hb : b ∉ m.bonds.map (·.id)) (r : Ref) :
+    step m (.delAtom (.obj a)) = (m, .err) ∧
+    (step m (.connect (.obj a) r)).2 = .err ∧ (step m (.connect r (.obj a))).2 = .err ∧
+    step m (.delBond b) = (m, .err) := by
+  have hra : resolveAtom m.atoms (.obj a) = none := by simp only [resolveAtom]; rw [if_neg]; exact ha
+  have hri : resolveIndex m.atoms (.obj a) = none := by simp only [resolveIndex]; rw [if_neg]; exact ha
+  refine ⟨?_, ?_, ?_, ?_⟩
+  · simp only [step, delAtom]
+    cases m.kind <;> simp [hra, hri]
+  · simp only [step, hra]
+  · simp only [step, hra]
+    cases resolveAtom m.atoms r <;> rfl
+  · simp only [step, if_neg hb]
 
 /-! ## views held across edits ("also … for Conformer/Substructure views where the operation is defined")
 
@@ -303,15 +371,19 @@ def demoOps : List Op :=
    .delAtom (.idx (-1)), .addAtom ⟨.ext 2, 6, none⟩ 16 (some 26), .connect (.obj (.own 0)) (.obj (.ext 2)),
    .connect (.obj (.ext 2)) (.obj (.own 0)), .delBond 9, .removeSubstituent (.obj (.own 0)) (.obj (.ext 2)) (some 7),
    .addHydrogens [(.own 0, 17), (.own 0, 18)], .delAtom (.label 5),
-   .viewWrite [.own 13, .own 0] [71, 72], .viewRead [.own 0, .own 13]]
+   .viewWrite [.own 13, .own 0] [71, 72], .viewRead [.own 0, .own 13],
+   .appendBond ⟨.own 0, 6, some 1⟩ ⟨.own 1, 8, some 2⟩, .appendBondObj 4 ⟨.own 1, 8, some 2⟩ ⟨.own 2, 1, none⟩,
+   .appendBondObj 4 ⟨.own 1, 8, some 2⟩ ⟨.own 2, 1, none⟩, .delAtom (.obj (.own 4))]
 
 example : MInv demo := inv_init_loaded _ _ _
-example : (run demo demoOps).ids = [.own 0, .own 2, .own 3, .ext 1, .own 11, .own 13, .own 15] := by decide
-example : (run demo demoOps).rows.map (·.2) = [72, 13, 14, 0, 16, 71, 18] := by decide
+example : (run demo demoOps).ids = [.own 0, .own 2, .own 3, .ext 1, .own 11, .own 13, .own 15, .own 1] := by decide
+example : (run demo demoOps).rows.map (·.2) = [72, 13, 14, 0, 16, 71, 18, 0] := by decide
 example : viewRows (run demo demoOps) [.own 0, .own 13] = some [72, 71] := by decide
 /-- a view made before a count-preserving edit pair (delete + create) still reads its own atoms -/
 example : viewRows (run demo [.viewRead [.own 2, .own 3], .delAtom (.idx 0), .newAtom 6 none 99]) [.own 2, .own 3] = some [13, 14] := by decide
-example : (run demo demoOps).charges.map (·.2) = [some 21, some 23, some 24, some 0, some 0, some 0, some 0] := by decide
+example : (run demo demoOps).charges.map (·.2) = [some 21, some 23, some 24, some 0, some 0, some 0, some 0, some 0] := by decide
+/-- the bond object 4 (o1–o2), deleted with atom o1 by the second op, is back after the stale handles were re-used -/
+example : 4 ∈ (run demo demoOps).bonds.map (·.id) := by decide
 example : invB (run demo demoOps) = true := by decide
 example : (step demo (.delAtom (.elem 8))).2 = .ok ∧
     (step demo (.delAtom (.elem 8))).1.bonds.map (·.id) = [6] := by decide
